@@ -124,11 +124,16 @@ Qed.
 
 Lemma step_P11b s t th c s' l e :
   t_pc th = P11b e -> step_th s t th c = Some (s', l) ->
-  mlookup (s_map s') (cur_q th) = None.
+  mlookup (s_map s') (cur_q th) <> Some e.
 Proof.
   intros Hp H. unfold step_th in H. rewrite Hp in H. unfold a_P11b, goto in H.
   destruct (is_tau c); [|discriminate]. cbv zeta in H.
-  inversion H; subst. autorewrite with st. rewrite mlookup_remove, Nat.eqb_refl. reflexivity.
+  destruct (mlookup (s_map s) (cur_q th)) as [e'|] eqn:Em.
+  - destruct (e' =? e) eqn:Ee; [|destruct (s_guard s)]; inversion H; subst; autorewrite with st.
+    + rewrite mlookup_remove, Nat.eqb_refl. discriminate.
+    + rewrite Em. intro X. inversion X; subst. rewrite Nat.eqb_refl in Ee. discriminate.
+    + rewrite mlookup_remove, Nat.eqb_refl. discriminate.
+  - inversion H; subst. autorewrite with st. rewrite mlookup_remove, Nat.eqb_refl. discriminate.
 Qed.
 
 Lemma step_P9w_fail s t th c s' l e :
@@ -168,7 +173,7 @@ Proof.
         -- exfalso. pose proof (step_P11b _ _ _ _ _ _ _ Hp1 H) as Hnone.
            pose proof (DT _ _ Ht) as D. cbv beta in D. destruct D as [D1 _].
            destruct (D1 e) as [_ [Dq _]]; [rewrite Hp1; reflexivity|].
-           rewrite (EK _ _ Ho) in Dq. subst k. rewrite Hnone in Hk. discriminate.
+           rewrite (EK _ _ Ho) in Dq. subst k. exact (Hnone Hk).
       * exists t1, th1. split; [|exact Hp1].
         rewrite (step_thr_other _ _ _ _ _ _ t1 Ht H Hne); [exact Hn1|]. apply nth_error_Some. congruence.
     + pose proof (DT _ _ Ht) as D. cbv beta in D. destruct D as [_ [_ [_ [_ [D5 _]]]]].
